@@ -21,6 +21,7 @@
 #include "llvm/IR/Operator.h"
 #include "llvm/Support/MemoryBuffer.h"
 #include "llvm/Support/raw_ostream.h"
+#include <cpuid.h>
 #include <cxxabi.h>
 #include <dlfcn.h>
 #include <exception>
@@ -28,6 +29,7 @@
 #include <functional>
 #include <malloc.h>
 #include <set>
+#include <sys/single_threaded.h>
 #include <typeinfo>
 
 using namespace llvm;
@@ -663,6 +665,8 @@ inline void check_freed(uint64_t a)
     if (a < it->first + it->second) label("memory: access to a freed heap block (reads 0xDD poison)")->checked++;
 }
 
+#include "sbv_race.inc"
+
 // ---------------------------------------------------------------------------------------------------------------
 // typed memory access
 void  store_val(uint64_t a, Type* t, const Val& v);
@@ -674,6 +678,7 @@ Val   load_val(uint64_t a, Type* t)
         unsigned nb = (unsigned)DL->getTypeStoreSize(t);
         if (a < 4096) finish(K_FAULT, "null pointer dereference (load)");
         check_freed(a);
+        RACE_READ(a, nb);
         Val r = load_bytes(a, nb);
         if (8 * nb != w) r = r.isC() ? VA(r.c.trunc(w)) : VS(E(r).extract(w - 1, 0));
         return r;
@@ -708,6 +713,7 @@ void store_val(uint64_t a, Type* t, const Val& v)
         {
             return; // store of undef: leave memory as is
         }
+        RACE_WRITE(a, nb);
         if (v.isC() && v.w != 8 * nb) store_bytes(a, nb, VA(v.c.zext(8 * nb)));
         else store_bytes(a, nb, v);
         return;
@@ -852,10 +858,12 @@ uint64_t gaddr(GlobalVariable* g)
         std::memset(p, 0, sz);
         a        = (uint64_t)p;
         GAddr[g] = a;
+        if (g->isThreadLocal()) race_tls[a] = sz;
         if (g->hasInitializer()) init_global_mem(a, g->getInitializer());
         return a;
     }
     GAddr[g] = a;
+    if (g->isThreadLocal()) race_tls[a] = std::max<uint64_t>(DL->getTypeAllocSize(g->getValueType()), 1);
     return a;
 }
 uint64_t faddr(Function* F)
@@ -968,5 +976,48 @@ extern bool call_suspended;
 #include "sbv_exec.inc"
 #include "sbv_threads.inc"
 } // namespace
+
+// Heap blocks that NATIVE code allocates (libstdc++.so's string / stream internals call operator new themselves) must start a
+// fresh access history for the race analysis as well: the interpreter executable replaces the global allocation functions, so
+// every operator new of the process passes here (those of the interpreter itself included, which is harmless).
+static inline void* sbv_new(size_t n, size_t al, bool nothrow)
+{
+    void* p = nullptr;
+    if (al > 16)
+    {
+        if (posix_memalign(&p, al, n ? n : 1)) p = nullptr;
+    }
+    else p = std::malloc(n ? n : 1);
+    if (!p)
+    {
+        if (nothrow) return nullptr;
+        throw std::bad_alloc();
+    }
+    if (race_on && !race_busy)
+    {
+        race_busy = true;
+        race_fresh((uint64_t)p, n);
+        race_busy = false;
+    }
+    return p;
+}
+void* operator new(size_t n) { return sbv_new(n, 0, false); }
+void* operator new[](size_t n) { return sbv_new(n, 0, false); }
+void* operator new(size_t n, const std::nothrow_t&) noexcept { return sbv_new(n, 0, true); }
+void* operator new[](size_t n, const std::nothrow_t&) noexcept { return sbv_new(n, 0, true); }
+void* operator new(size_t n, std::align_val_t a) { return sbv_new(n, (size_t)a, false); }
+void* operator new[](size_t n, std::align_val_t a) { return sbv_new(n, (size_t)a, false); }
+void* operator new(size_t n, std::align_val_t a, const std::nothrow_t&) noexcept { return sbv_new(n, (size_t)a, true); }
+void* operator new[](size_t n, std::align_val_t a, const std::nothrow_t&) noexcept { return sbv_new(n, (size_t)a, true); }
+void  operator delete(void* p) noexcept { std::free(p); }
+void  operator delete[](void* p) noexcept { std::free(p); }
+void  operator delete(void* p, size_t) noexcept { std::free(p); }
+void  operator delete[](void* p, size_t) noexcept { std::free(p); }
+void  operator delete(void* p, std::align_val_t) noexcept { std::free(p); }
+void  operator delete[](void* p, std::align_val_t) noexcept { std::free(p); }
+void  operator delete(void* p, size_t, std::align_val_t) noexcept { std::free(p); }
+void  operator delete[](void* p, size_t, std::align_val_t) noexcept { std::free(p); }
+void  operator delete(void* p, const std::nothrow_t&) noexcept { std::free(p); }
+void  operator delete[](void* p, const std::nothrow_t&) noexcept { std::free(p); }
 
 #include "sbv_main.inc"
